@@ -541,6 +541,67 @@ def dot_cases(ctx, tools, exe, rng, n):
     return len(cases), mism, classes, examples
 
 
+def module_vector_cases(ctx, tools, exe, rng, npairs):
+    """`const v = vec2<T>(a, b) op vec2<T>(c, d);` at module scope: lowerConstantVectorBinaryExpr ->
+       evalScalarArithmetic / evalScalarComparison on the raw ScalarValue bits"""
+    progs, meta, mreq, sreq = [], [], [], []
+    pools = {"i32": [0, 1, -1, 2, -2, 3, 7, -6, 6, H32 - 1, -H32], "u32": [0, 1, 2, 3, 7, M32 - 1, H32]}
+    k = 0
+    for ty in ("i32", "u32"):
+        for op in ("+", "-", "*", "/", "%", "==", "!=", "<", ">="):
+            for _ in range(npairs):
+                a = [rng.choice(pools[ty]) for _ in range(2)]
+                b = [rng.choice(pools[ty]) for _ in range(2)]
+                for x, y in zip(a, b):
+                    mreq.append({"fn": "mod_vec_component", "e": ["bin", op, ["lit", "I32" if ty == "i32" else "U32", x % M32],
+                                                                  ["lit", "I32" if ty == "i32" else "U32", y % M32]]})
+                    sreq.append({"fn": "fold_expr", "e": ["bin", op, FC.typed(ty, x), FC.typed(ty, y)]})
+                vt = "vec2<%s>" % ty
+                src = ("const v = %s(%s) %s %s(%s);\n@compute @workgroup_size(1)\nfn main() { }\n"
+                       % (vt, ", ".join(FC.render(FC.typed(ty, x)) for x in a), op, vt, ", ".join(FC.render(FC.typed(ty, y)) for y in b)))
+                progs.append({"id": k, "src": src, "want": ["ir"]})
+                meta.append((ty, op, src))
+                k += 1
+    mres = vcheck.run_model(exe, mreq)
+    sres = vcheck.run_model(exe, sreq)
+    out = nagarun.parallel_batches(tools["nagadrive"], "compile", progs, per_job_timeout=20.0, chunk=32)
+    classes = collections.Counter()
+    examples = {}
+    mism = 0
+    for i, (ty, op, src) in enumerate(meta):
+        want = [mres[2 * i].get("r"), mres[2 * i + 1].get("r")]
+        spec = [sres[2 * i].get("s"), sres[2 * i + 1].get("s")]
+        r = out.get(i)
+        got = None
+        if r and "ir" in r:
+            ir = r["ir"]
+            cs = [c for c in ir["Constants"] if c.get("Name") == "v"]
+            if cs:
+                ge = ir["GlobalExpressions"][cs[0]["Init"]]["Kind"]
+                if ge["_t"] == "ExprCompose":
+                    got = [FC.norm_literal(ir["GlobalExpressions"][h]["Kind"]["Value"]) for h in ge["Components"]]
+        elif r and "err" in r:
+            got = "error"
+        if got != want:
+            mism += 1
+            ctx.violation("module-scope vector constant: naga evaluates `%s` to %s, the model of evalScalarArithmetic/evalScalarComparison predicts %s"
+                          % (src.split("\n")[0], got, want), files={"case.wgsl": src}, key="model-mismatch:modvec:%s:%s" % (op, ty),
+                          broken="correspondence ModEvalModel.mod_vec_component vs lowerConstantVectorBinaryExpr")
+            continue
+        for w, sp in zip(want, spec):
+            if sp in (None, "ill") or w is None:
+                continue
+            if FC.is_err(sp):
+                key = "modvec:%s:error-not-reported" % sp[1]
+            elif w != sp:
+                key = "modvec:%s:value" % op
+            else:
+                continue
+            classes[key] += 1
+            examples.setdefault(key, (src, w, sp))
+    return len(meta), mism, classes, examples
+
+
 def same_literal(a, b):
     if a is None or b is None:
         return a is None and b is None
@@ -595,13 +656,13 @@ def run(ctx):
     tick("harness")
     model_files = ["Fold/GoArith.v", "Fold/FoldModel.v", "Fold/ModEvalModel.v", "Fold/FoldFloat.v", "Fold/WgslConst.v",
                    "Fold/FoldArith.v", "Fold/FoldProofs.v", "Fold/FoldBits.v", "Fold/FoldTree.v", "Fold/FoldAbstract.v",
-                   "Fold/FoldErrors.v", "Fold/FoldRefuted.v", "Fold/ModEvalProofs.v", "Fold/FoldGen.v", "Base/Bits32.v"]
+                   "Fold/FoldErrors.v", "Fold/FoldRefuted.v", "Fold/ModEvalProofs.v", "Fold/FoldFloatProofs.v", "Fold/FoldGen.v", "Base/Bits32.v"]
     ok, failed, log = vcheck.proof_step(ctx, "Props/C06.v", model_files,
                                         gen_writer=lambda: gen.regenerate(tools, ["foldtables"]),
-                                        extra_obligation_files=["Fold/FoldGen.v", "Fold/FoldFloat.v"])
+                                        extra_obligation_files=["Fold/FoldGen.v", "Fold/FoldFloat.v", "Fold/FoldFloatProofs.v"])
     ctx.cov["trusted_base"] += [
         "translator: harness/cmd/goextract funcsrc (go/ast + go/printer) + lib/c06gen.py -> coq/Gen/FoldTables.v (switch tables and statement lists of 14 leaf functions of lower.go)",
-        "axioms of Flocq/Reals under the float model only (Fold/FoldFloat.v: ClassicalDedekindReals.sig_forall_dec, sig_not_dec, FunctionalExtensionality.functional_extensionality_dep, Classical_Prop.classic); every theorem of Props/C06.v is axiom-free",
+        "axioms of Coq's Reals reached through Flocq, under the float theorems only (c06_fold_f32_arith_is_runtime, c06_f32_add_via_f64: ClassicalDedekindReals.sig_forall_dec, sig_not_dec, FunctionalExtensionality.functional_extensionality_dep, Classical_Prop.classic); every integer/bool/module-scope theorem of Props/C06.v is closed under the global context",
         "extraction: ExtrOcamlBasic only; Z/positive/string kept as Coq datatypes; generic driver ocaml/common/driver.ml; OCaml 4.13.1",
         "correspondence harness: harness/cmd/nagadrive compile (reflection dump with typed literals), lib/foldcorr.py (WGSL text of a tree, IR reader)",
         "my transcription of WGSL const-expression rules (Fold/WgslConst.v): AbstractInt = 64-bit, overflow of abstract arithmetic is an error, concrete integer arithmetic wraps, / % by zero and MIN/-1 are errors, shift amount >= width and shifted-out bits are errors, clamp low>high is an error, abstract->concrete needs representability; builtins on abstract arguments whose overload choice is unclear are not claimed (Ill)",
@@ -610,7 +671,7 @@ def run(ctx):
     ]
     ctx.assumptions = [
         "theorems are about the models; the models are tied to naga by the regenerated tables (R) and by running model and naga on the same generated trees (C) -- boundary pools squared per operator and type plus seeded random operands, not all operands",
-        "float theorems: only the refutations of roundToF16 are proved; f32 + - * through float64 is checked against the direct f32 operation on generated operands (not proved)",
+        "float theorems: f32 + - * through float64 = the f32 operation is proved for all finite operands, roundToF16 refuted by witnesses; f32 / %, comparisons, conversions, float builtins, abstract-float and f16 arithmetic are tied by correspondence only (model vs naga), not related to a WGSL specification by a theorem",
         "literal tokens are written in decimal with the shortest exact text; hexadecimal literals and the lexer are C19's",
     ]
     broken = None
@@ -738,6 +799,8 @@ def run(ctx):
     nvec, vmism = vector_cases(ctx, tools, exe, rng, ctx.scale(120, 1500))
     ndot, dmism, dclasses, dexamples = dot_cases(ctx, tools, exe, rng, ctx.scale(40, 600))
     classes.update(dclasses)
+    nmv, mvmism, mvclasses, mvexamples = module_vector_cases(ctx, tools, exe, rng, ctx.scale(6, 60))
+    classes.update(mvclasses)
     nrt = runtime_side(ctx, tools, enums)
     tick("aux")
     ctx.cov["timing_s"] = {b[0]: round(b[1] - a[1], 1) for a, b in zip(T, T[1:])}
@@ -750,6 +813,11 @@ def run(ctx):
                     % (k, classes[k], (", substituted value differs from the run-time value in %d, equals it in %d" % (rr["differs"], rr["same"])) if rr else "",
                        FC.render_top(c.e), c.pos, json.dumps(c.obs), json.dumps(c.spec), json.dumps(c.rt)))
             files = {"case.wgsl": c.src or "", "case.json": json.dumps({"pos": c.pos, "ty": c.ty, "e": c.e})}
+        elif k in mvexamples:
+            src, w, sp = mvexamples[k]
+            what = ("naga violates C06 (class %s, %d components): module-scope vector constant `%s` has a component %s; WGSL specifies %s"
+                    % (k, classes[k], src.split("\n")[0], json.dumps(w), json.dumps(sp)))
+            files = {"case.wgsl": src}
         elif k in dexamples:
             what = "naga violates C06 (class %s): dot of products that are all -0.0 folds to +0.0, the run-time sum of the products is -0.0" % k
             files = {"case.wgsl": dexamples[k]}
@@ -767,12 +835,12 @@ def run(ctx):
     hist = collections.Counter(c.pos for c in cases)
     distinct = len({c.key() for c in cases})
     ctx.cov["correspondence"] = {"cases": len(cases), "distinct": distinct, "by_position": dict(hist), "model_mismatches": len(mism),
-                                 "vector_cases": nvec, "dot_cases": ndot, "f32_via_f64_checked": f32_checked, "runtime_side_nodes": nrt,
+                                 "vector_cases": nvec, "module_vector_constants": nmv, "dot_cases": ndot, "f32_via_f64_checked": f32_checked, "runtime_side_nodes": nrt,
                                  "f16_conversions": len(f16_cases)}
     ctx.cov["finding_classes"] = {k: classes[k] for k in sorted(classes)}
-    ctx.cov["evaluations"] = len(cases) + nvec + ndot + nrt
+    ctx.cov["evaluations"] = len(cases) + nvec + ndot + nrt + nmv
     ctx.cov["distinct_nontrivial"] = distinct
-    ctx.cov["traces_validated_against_impl"] = len(cases) - len(mism) + nvec - vmism + ndot - dmism
+    ctx.cov["traces_validated_against_impl"] = len(cases) - len(mism) + nvec - vmism + ndot - dmism + nmv - mvmism
     ctx.cov["rule"] = ("expression trees over literals (i32,u32,abstract-int,bool,f32,abstract-float): boundary pool squared per operator and type "
                        "+ seeded random operands + random nested trees, each written at the positions store / let / function const / folded "
                        "sub-expression / module const (typed, untyped, abstract) / switch selector / array size / workgroup_size / const_assert; "
